@@ -58,6 +58,17 @@ func New(property string) *Run {
 	}
 	r := &Run{Property: property, Tier: tier, Seed: seed, Start: time.Now(), viol: map[string]*Violation{}, violCount: map[string]int{},
 		counters: map[string]int64{}, distinct: map[string]struct{}{}, exhaustive: true, extra: map[string]any{}, skipped: map[string]int64{}, Root: root}
+	// Default internal time budget (a check may set its own): reaching it ends the enumeration early with
+	// exhaustive=false and the completed index ranges in the notes; it is never a failure and no oracle
+	// depends on it. VERIF_DEADLINE_S overrides.
+	budget := 20 * time.Minute
+	if tier == "thorough" {
+		budget = 50 * time.Minute
+	}
+	if d, err := strconv.Atoi(os.Getenv("VERIF_DEADLINE_S")); err == nil && d > 0 {
+		budget = time.Duration(d) * time.Second
+	}
+	r.Deadline = r.Start.Add(budget)
 	return r
 }
 
